@@ -726,6 +726,12 @@ Proof.
   - destruct depth; [lia|]. cbn [cbor_value]. apply IH. lia.
 Qed.
 
+Lemma ann_offset_safe parent b e : safeo (ann_offset parent b e).
+Proof.
+  unfold ann_offset. destruct parent as [len|]; [|apply safeo_ok].
+  destruct ((b <=? e) && (e <=? len)); [apply safeo_ok|apply safeo_err].
+Qed.
+
 Lemma include_stdin_safe o : safeo (include_stdin false o).
 Proof. apply safeo_err. Qed.
 
